@@ -184,9 +184,13 @@ def h13c(c):
         ep_a = c.choose("event_processing_a", [False, True])
         ep_b = c.choose("event_processing_b", [False, True])
         md = cm.NS(event_id="30000001", market_type="WIN", country_code="GB")
+        groups = {"none": {}, "event-mapped": {"30000001": "G", "30000002": "G"}, "other-events-only": {"30000002": "G"}}[c.choose("event_groups", ["none", "event-mapped", "other-events-only"])]
         with c.guard("add_historical_stream"):
-            sa = fl.streams.add_historical_stream(strategies[0], "/data/1.100000001", md, ep_a, {}, **ka)
-            sb = fl.streams.add_historical_stream(strategies[1], "/data/1.100000001", md, ep_b, {}, **kb)
+            sa = fl.streams.add_historical_stream(strategies[0], "/data/1.100000001", md, ep_a, groups, **ka)
+            sb = fl.streams.add_historical_stream(strategies[1], "/data/1.100000001", md, ep_b, groups, **kb)
+        for st, ep in ((sa, ep_a), (sb, ep_b)):
+            # markets of one event are replayed together: the event's group, its own id when no group is given for it; none without event processing
+            c.ob("stream-event-group", st.event_group == ((groups.get("30000001", "30000001")) if ep else None), got=str(st.event_group), event_processing=ep)
         norm = lambda k: {x: v for x, v in k.items() if v is not None}  # noqa: E731
         same_meaning = norm(ka) == norm(kb) and ep_a == ep_b
         if not same_meaning:
